@@ -3,6 +3,7 @@ package harness
 import (
 	"fmt"
 	"reflect"
+	"regexp"
 	"sort"
 	"strings"
 	"time"
@@ -94,6 +95,8 @@ type Result struct {
 	destPtr reflect.Value
 }
 
+var addrRx = regexp.MustCompile(`0x[0-9a-f]{6,}`)
+
 func recIssue(key string, i *z.ZogIssue) IssueRec {
 	if i == nil {
 		return IssueRec{Key: key, Code: "<nil issue>"}
@@ -103,9 +106,11 @@ func recIssue(key string, i *z.ZogIssue) IssueRec {
 		r.Params = Canon(i.Params)
 	}
 	if i.Err != nil {
-		r.Err = i.Err.Error()
+		// error texts may print channel / func / pointer values: keep the log address-free
+		r.Err = addrRx.ReplaceAllString(i.Err.Error(), "0xADDR")
 	}
-	r.Value = safeCanon(i.Value)
+	r.Msg = addrRx.ReplaceAllString(r.Msg, "0xADDR")
+	r.Value = addrRx.ReplaceAllString(safeCanon(i.Value), "0xADDR")
 	return r
 }
 
@@ -370,7 +375,7 @@ func (x *X) Exec(tag string, op *Op) *Result {
 	res.Calls = rec.Calls
 	res.FmtSeen = rec.FmtSeen
 	res.Injected = rec.Injected
-	res.Dest = CanonV(dest.Elem())
+	res.Dest = addrRx.ReplaceAllString(CanonV(dest.Elem()), "0xADDR")
 	for _, f := range rec.Injected {
 		x.Faults[f]++
 	}
